@@ -209,6 +209,17 @@ def generate(rng, tier, scale=1):
                     cases.append({"entry": "live", "size": size, "hop": hop, "pad": "P", "n": n,
                                   "vals": ["v%d" % i for i in range(nfull(size, hop, n) + 2)],
                                   "kind": ("control", "cell", "cellstream")[(n + size) % 3]})
+        Lr, Sr, Hr = (8, 3, 4) if quick else (14, 5, 7)
+        for n in range(Lr + 1):
+            for size in range(1, Sr + 1):
+                for hop in range(1, Hr + 1):
+                    base = {"entry": "blocks", "size": size, "hop": hop, "pad": "P", "xs": list(range(n))}
+                    cases.append(dict(base, route="gain", gain=10, xs=list(range(1, n + 1))))
+                    cases.append(dict(base, route="thub"))
+                    for j in range(nfull(size, hop, n) + 1):
+                        cases.append(dict(base, route="chg_limit", take=j))
+                        cases.append(dict(base, route="chg_append", take=j,
+                                          first=(pulled(size, hop, j), n)[(n + j) % 2]))
         for n in range(0, 6):
             for l in range(0, 4):
                 for r in range(0, 4):
@@ -234,7 +245,7 @@ def generate(rng, tier, scale=1):
                       "pad": rng.choice(PAD_POOL),
                       "xs": _items(rng, n, rng.choice(["int", "hetero", "ident"])),
                       "route": rng.choice(["func", "stream", "iter"])})
-    for _ in range(nrand):
+    for _ in range((1500 if quick else 12000) * scale):
         cases.append(_random_case(rng))
     return [c for c in cases if valid(c)]
 
@@ -421,6 +432,24 @@ def _source(items, ending, log, exc):
         raise exc
 
 
+class RunawayRead(Exception):
+    """the code under test read far beyond anything the case can need"""
+
+
+def _extras(k):
+    for i in range(k):
+        yield ("extra", i)
+    raise RunawayRead("read %d items past the point where the input was limited" % k)
+
+
+class _Timeout(BaseException):
+    pass
+
+
+def _alarm(_sig, _frm):
+    raise _Timeout("impl call exceeded its time budget")
+
+
 def _run_gen(gen, reg, out, bound=None):
     """collect snapshots of the blocks; returns error kind or None"""
     try:
@@ -488,7 +517,7 @@ def _impl_blocks(c):
                 obs["blocks2"] = out2
     elif route == "chg_limit":
         j = c["take"]
-        endless = it.chain(xs, (("extra", i) for i in it.count()))
+        endless = it.chain(xs, _extras(n + 64))     # "endless": long enough, with a trip-wire at its end
         cs = ChangeableStream(endless)
         blks = iter(cs.blocks(**kw))
         err = _run_gen(blks, reg, out, j)
@@ -523,22 +552,26 @@ def _impl_trace(c):
     src = _source(xs, c["ending"], log, exc)
     kw = dict(size=c["size"], hop=c["hop"], padval=pad)
     route = c.get("route", "func")
-    if route == "func":
-        gen = blocks(src, **kw)
-    elif route == "stream":
-        gen = Stream(src).blocks(**kw)
-    elif route == "substream":
-        gen = SubStream(src).blocks(**kw)
-    else:
-        gen = ChangeableStream(src).blocks(**kw)
     events = []
-    obs = {"events": events, "raised": False}
+    obs = {"events": events, "raised": False, "pulled_at_construction": 0}
     try:
+        if route == "func":
+            gen = blocks(src, **kw)
+        elif route == "stream":
+            gen = Stream(src).blocks(**kw)
+        elif route == "substream":
+            gen = SubStream(src).blocks(**kw)
+        else:
+            gen = ChangeableStream(src).blocks(**kw)
+        gen = iter(gen)
+        obs["pulled_at_construction"] = len(log)
         for b in gen:
             events.append([len(log), list(b) if big else tagl(b, reg)])
     except Exception as e:
         obs["raised"] = True
         obs["exc"] = "same" if e is exc else "other:" + err_kind(e)
+        if "gen" not in locals() or not hasattr(gen, "__next__"):
+            obs["pulled_at_construction"] = max(len(log), 1)
     return obs
 
 
@@ -709,6 +742,19 @@ def _impl_conc(c):
 
 
 def impl(c):
+    import signal
+    old = signal.signal(signal.SIGALRM, _alarm)
+    signal.setitimer(signal.ITIMER_REAL, 30)
+    try:
+        return _impl(c)
+    except _Timeout:
+        return {"err": "OTHER:Timeout"}
+    finally:
+        signal.setitimer(signal.ITIMER_REAL, 0)
+        signal.signal(signal.SIGALRM, old)
+
+
+def _impl(c):
     e = c["entry"]
     try:
         if e == "blocks":
@@ -731,7 +777,7 @@ def impl(c):
 # ----------------------------------------------------------------------------
 def _req1(c):
     r = {k: c[k] for k in ("entry", "size", "hop", "pad", "xs", "n", "ending", "edits", "vals",
-                           "left", "right", "zero") if k in c}
+                           "left", "right", "zero", "fast") if k in c}
     if c["entry"] == "blocks" and c.get("route") == "gain":
         r["xs"] = [x * c["gain"] for x in c["xs"]]
     if c["entry"] == "live":
@@ -785,13 +831,17 @@ def compare(c, io, drv):
     elif e == "trace":
         if "err" in io:
             return [("model", "impl raised " + io["err"]), ("spec", "impl raised " + io["err"])]
-        if io["events"] != drv["model"] or io["raised"] != drv["raised"]:
+        if drv["model"] is not None and (io["events"] != drv["model"] or io["raised"] != drv["raised"]):
             out.append(("model", "trace differs from model: impl=%s model=%s" % (_ev(io["events"], io["raised"]), _ev(drv["model"], drv["raised"]))))
         if io["events"] != drv["spec"] or io["raised"] != drv["spec_raised"]:
             out.append(("spec", "(items pulled, block) events of a source that %ss after %d items differ: impl=%s spec=%s"
                         % (c["ending"], case_len(c), _ev(io["events"], io["raised"]), _ev(drv["spec"], drv["spec_raised"]))))
         elif io["raised"] and io.get("exc") != "same":
             out.append(("spec", "the source's exception did not come out unchanged: " + str(io.get("exc"))))
+        if io.get("pulled_at_construction"):
+            out.append(("spec", "the source was read (%d items, or its failure came out) when the generator was only "
+                        "constructed: block 0 is produced at the moment it is asked for, from the items pulled then"
+                        % io["pulled_at_construction"]))
     elif e in ("mut", "live"):
         if "err" in io:
             return [("model", "impl raised " + io["err"]), ("spec", "impl raised %s after %r" % (io["err"], io.get("blocks")))]
@@ -899,6 +949,11 @@ def tally(eng, c, io):
 # ----------------------------------------------------------------------------
 # shrinking / search / signatures
 # ----------------------------------------------------------------------------
+def _pow2ish(v):
+    """2^k + 1 or 2^k (k >= 6): one step down crosses / reaches the power of two"""
+    return v > 64 and ((v - 1) & (v - 2) == 0 or v & (v - 1) == 0)
+
+
 def _shrink1(c):
     e = c["entry"]
     if e == "zero_pad":
@@ -910,7 +965,8 @@ def _shrink1(c):
         for k in ("left", "right"):
             if c[k]:
                 yield dict(c, **{k: c[k] // 2})
-                yield dict(c, **{k: c[k] - 1})
+                if c[k] <= 64:
+                    yield dict(c, **{k: c[k] - 1})
         if c.get("ptype", "int") != "int":
             yield dict(c, ptype="int")
         if c.get("route", "iter") != "iter":
@@ -932,22 +988,30 @@ def _shrink1(c):
     elif n:
         if e != "live":
             yield dict(c, n=n // 2)
-        yield dict(c, n=n - 1)
+            for v in (c["size"], c["size"] + c["hop"], c["size"] - 1):     # the boundaries of the first blocks
+                if 0 <= v < n:
+                    yield dict(c, n=v)
+        if n <= 64 or e == "live":
+            yield dict(c, n=n - 1)
         if e == "trace" and n <= 40:
             d = dict(c, xs=list(range(n)))
             d.pop("n")
             yield d
-    if c["size"] > 1:
+    # values above 64 only halve (or drop to the next power of two): every step of a large case costs
+    # O(size * len) on the model side, a walk by -1 would take minutes
+    if 1 < c["size"] <= 64 or _pow2ish(c["size"]):
         d = dict(c, size=c["size"] - 1)
         if e == "mut":
             d["edits"] = [[op for op in ops if op[0] != "set" or op[1] < d["size"]] for ops in c["edits"]]
         yield d
-        if c["size"] > 8:
-            yield dict(c, size=c["size"] // 2, **({"edits": []} if e == "mut" else {}))
-    if c["hop"] > 1:
+    if c["size"] > 8:
+        yield dict(c, size=c["size"] // 2, **({"edits": []} if e == "mut" else {}))
+    if 1 < c["hop"] <= 64 or _pow2ish(c["hop"]):
         yield dict(c, hop=c["hop"] - 1)
-        if c["hop"] > 8:
-            yield dict(c, hop=c["hop"] // 2)
+    if c["hop"] > 8:
+        yield dict(c, hop=c["hop"] // 2)
+        if c["hop"] > c["size"] + 1:
+            yield dict(c, hop=c["size"] + 1)
     if c.get("pad") not in (None, "P"):
         yield dict(c, pad=None)
     if e == "blocks":
@@ -994,6 +1058,12 @@ def _shrink1(c):
 
 
 def shrink(c):
+    if c["entry"] == "trace" and c["size"] * case_len(c) > 10 ** 6:
+        # large case: candidates are compared with the Lean spec only (see the driver's "fast")
+        for d in _shrink1(c):
+            if valid(d):
+                yield dict(d, fast=True)
+        return
     if c["entry"] == "conc":
         subs = c["subs"]
         if len(subs) == 1:
@@ -1012,6 +1082,7 @@ def shrink(c):
         return
     for d in _shrink1(c):
         if valid(d):
+            d.pop("fast", None)
             yield d
 
 
@@ -1049,6 +1120,8 @@ def classify(c, io, drv):
     if e == "trace":
         if "err" in io:
             return "trace:" + io["err"]
+        if io.get("pulled_at_construction"):
+            return "trace:%s:read-at-construction" % c["ending"]
         if io["raised"] != drv["spec_raised"]:
             return "trace:%s:%s" % (c["ending"], "exception-swallowed" if drv["spec_raised"] else "unexpected-exception")
         if [b for _n, b in io["events"]] == [b for _n, b in drv["spec"]]:
